@@ -354,7 +354,7 @@ func c23(c *vc.Ctx) {
 			f := &vc.Fail{
 				Key:   fmt.Sprintf("IFS=%s line=%q %s: %s=%q bash=%q", t.ifsString(), t.Line, t.readCmd(), s.what, sh, got),
 				Msg:   fmt.Sprintf("IFS=%s; %s <<< %q: %s gives status|values %q, %s %q", t.ifsString(), t.readCmd(), t.Line, s.what, sh, oracleName, got),
-				Class: c23Class(t, sh),
+				Class: c23Class(t, sh, got),
 			}
 			switch {
 			case fails[s.i] == nil:
